@@ -1,5 +1,7 @@
 import Driver.ExprOps
 import Driver.IntervalOps
+import Driver.RvOps
+import Driver.OpcodeOps
 /-
 Registry of all operation handlers of the model driver.  One line per component.
 -/
@@ -7,6 +9,8 @@ namespace Driver
 
 def allHandlers : List (String × Handler) :=
   exprHandlers ++
-  intervalHandlers
+  intervalHandlers ++
+  rvHandlers ++
+  opcodeHandlers
 
 end Driver
